@@ -6,7 +6,7 @@
    hook arguments and return the same point and outcome kind, and the caller's
    start vector must be unchanged. *)
 From Coq Require Import ZArith List Bool Floats.
-From ADV Require Import Base.Num Base.Corr C07.Model C07.ModelNewton C07.ModelNewtonMin C07.ModelSaga C07.ModelBlahut.
+From ADV Require Import Base.Num Base.Corr C07.Model C07.ModelNewton C07.ModelNewtonMin C07.ModelSaga C07.ModelBlahut C07.ModelAdamGeneric.
 Import ListNotations.
 Open Scope Z_scope.
 
@@ -39,6 +39,7 @@ Inductive routine :=
 | RLS (hook cons : bool) (alpha1 : float) (maxEval : Z)
 | RBfgs (p : bf_params (A := float))
 | RAdam (p : ad_params (A := float))
+| RAdamG (p : ad_params (A := float))                   (* adam.Run (adam.go), round 3 *)
 | RNewton (crit : bool) (p : nw_params (A := float))    (* crit: RunCrit (y = gradient, J = Hessian) *)
 | RNewtonMin (p : nm_params (A := float))               (* nm_phi: RunMin; else the back-tracking variant *)
 | RSaga (p : sg_params (A := float))
@@ -127,6 +128,7 @@ Definition run_case (c : case) : outcome (A := float) * trace (A := float) :=
       let r := line_search_run NumF KF F HK CS hk cs fuel a1 me in (ls_to_outcome (fst r), snd r)
   | RBfgs p => bfgs NumF KF F HK CS p fuel (c_x0 c)
   | RAdam p => adam_dense NumF F HK CS p fuel (c_x0 c)
+  | RAdamG p => adam_generic NumF F HK CS p fuel (c_x0 c)
   | RNewton _ _ => (OutOfFuel, [])     (* replayed by run_newton / check_newton below *)
   | RNewtonMin _ => (OutOfFuel, [])    (* replayed by run_newton_min / check_newton_min below *)
   | RSaga _ => (OutOfFuel, [])         (* replayed by run_saga / check_saga below *)
